@@ -207,6 +207,11 @@ structure SpSt (cap : Cap) (L R : Bool) (p : Pool) (m : Nat) (k : Int) (P : Cnt 
   mp : MapMid p m k
   ac : AccAt p m P
   lt : m < p.reqs.length
+  nw : ∀ r, p.reqs[m]? = some r → r.frame ≠ .waitRoom
+
+theorem Req.pend_zero {r : Req} (h : r.frame ≠ .waitRoom) : r.pend = 0 := by
+  unfold Req.pend
+  cases hf : r.frame <;> simp_all
 
 /-- `P` does not depend on where the spawner is suspended -/
 def FrameFree (P : Cnt → MFrame → Prop) : Prop := ∀ c fr fr', P c fr → P c fr'
@@ -215,51 +220,77 @@ theorem PA.ff (n : Nat) : FrameFree (PA n) := fun _ _ _ h => h
 theorem PAf.ff (n : Nat) : FrameFree (PAf n) := fun _ _ _ h => h
 theorem PM.ff (l h : Nat) : FrameFree (PM l h) := fun _ _ _ h => h
 
-theorem Good.sp {cap : Cap} {L R : Bool} {p : Pool} (hg : Good cap L R p) (m : Nat) (hlt : m < p.reqs.length) :
+theorem Good.sp {cap : Cap} {L R : Bool} {p : Pool} (hg : Good cap L R p) (m : Nat) (hlt : m < p.reqs.length)
+    (hnw : ∀ r, p.reqs[m]? = some r → r.frame ≠ .waitRoom) :
     SpSt cap L R p m 0 (fun c fr => AccReq c fr 0) :=
-  ⟨hg.toGood0, hg.map.mid m, hg.acc.atReq m, hlt⟩
+  ⟨hg.toGood0, hg.map.mid m, hg.acc.atReq m, hlt, hnw⟩
 
 theorem SpSt.good {cap : Cap} {L R : Bool} {p : Pool} {m : Nat} {k : Int} {P : Cnt → MFrame → Prop}
-    (h : SpSt cap L R p m k P) (hk : 0 ≤ k) (hP : ∀ c fr, P c fr → AccReq c fr 0) : Good cap L R p :=
+    (h : SpSt cap L R p m k P) (hk : k = 0) (hP : ∀ c fr, P c fr → AccReq c fr 0) : Good cap L R p :=
   ⟨h.g0, h.mp.ok hk, h.ac.ok hP⟩
 
 theorem SpSt.weaken {cap : Cap} {L R : Bool} {p : Pool} {m : Nat} {k : Int} {P Q : Cnt → MFrame → Prop}
     (h : SpSt cap L R p m k P) (hPQ : ∀ c fr, P c fr → Q c fr) : SpSt cap L R p m k Q :=
-  ⟨h.g0, h.mp, h.ac.weaken hPQ, h.lt⟩
+  ⟨h.g0, h.mp, h.ac.weaken hPQ, h.lt, h.nw⟩
 
 /-- a tame step (nested user code included) -/
 theorem SpSt.tame {cap : Cap} {L R : Bool} {p q : Pool} {m : Nat} {k : Int} {P : Cnt → MFrame → Prop}
     (h : SpSt cap L R p m k P) (t : Tame p q) (hP : FrameFree P) : SpSt cap L R q m k P :=
   ⟨t.toTame0.good0 h.g0, t.mapFrame.mid h.mp h.lt, t.accFrame.atReq h.ac h.lt (fun c fr fr' x _ => hP c fr fr' x),
-    Nat.lt_of_lt_of_le h.lt t.rql⟩
+    Nat.lt_of_lt_of_le h.lt t.rql, fun r' hr' => by
+      rcases t.rq m r' hr' with ⟨r, a, b⟩ | ⟨hge, _⟩
+      · rcases b.fr with e | e
+        · rw [e]; exact h.nw r a
+        · rw [e]; intro x; cases x
+      · have := h.lt; omega⟩
 
 /-- request `m` is rewritten: no map slot moves unless accounted for by `k → k'`, `created` stays -/
 theorem SpSt.modReq {cap : Cap} {L R : Bool} {p : Pool} {m : Nat} {k : Int} {P : Cnt → MFrame → Prop}
     (h : SpSt cap L R p m k P) (f : Req → Req) (k' : Int) (P' : Cnt → MFrame → Prop)
     (hsem : ∀ r v, p.reqs[m]? = some r → r.mapSem.value = .fin v →
         ∃ v', (f r).mapSem.value = .fin v' ∧
-          ((v' + grantsL (f r).mapSem.waiters + (f r).pend : Nat) : Int) + k' ≤ (v + grantsL r.mapSem.waiters + r.pend : Nat) + k)
+          ((v' + grantsL (f r).mapSem.waiters + (f r).pend : Nat) : Int) + k' ≤ (v + grantsL r.mapSem.waiters + r.pend : Nat) + k ∧
+          ((f r).outcome = none → r.outcome = none ∧
+            ((v + grantsL r.mapSem.waiters + r.pend : Nat) : Int) + k ≤ (v' + grantsL (f r).mapSem.waiters + (f r).pend : Nat) + k'))
     (hnc : ∀ r, (f r).nc = r.nc) (hacq : ∀ r, p.reqs[m]? = some r → r.AcqOK → (f r).AcqOK)
     (hc : ∀ r, (f r).created = r.created)
-    (hf : ∀ r, p.reqs[m]? = some r → P r.cnt r.frame → P' (f r).cnt (f r).frame) :
+    (hf : ∀ r, p.reqs[m]? = some r → P r.cnt r.frame → P' (f r).cnt (f r).frame)
+    (hnw : ∀ r, r.frame ≠ .waitRoom → (f r).frame ≠ .waitRoom)
+    (hwk : ∀ r, p.reqs[m]? = some r → r.mapSem.WakeInv → (f r).mapSem.WakeInv) :
     SpSt cap L R (p.modReq m f) m k' P' :=
-  ⟨(Pool.tame0_modReq p m f).good0 h.g0, h.mp.modReq f k' hsem hnc hacq, h.ac.modReq f hc hf,
-    by simpa [Pool.modReq] using h.lt⟩
+  ⟨(Pool.tame0_modReq p m f).good0 h.g0, h.mp.modReq f k' hsem hnc hacq hwk, h.ac.modReq f hc hf,
+    by simpa [Pool.modReq] using h.lt, fun r' hr' => by
+      simp only [Pool.modReq] at hr'
+      obtain ⟨x, hx, rfl⟩ := getElem?_modify_some p.reqs m m f r' hr'
+      simp only [if_true]
+      exact hnw x (h.nw x hx)⟩
 
 /-- request `m` is rewritten in fields the map books do not read -/
 theorem SpSt.modReq' {cap : Cap} {L R : Bool} {p : Pool} {m : Nat} {k : Int} {P : Cnt → MFrame → Prop}
     (h : SpSt cap L R p m k P) (f : Req → Req) (P' : Cnt → MFrame → Prop)
-    (hs : ∀ r, (f r).mapSem = r.mapSem ∧ (f r).nc = r.nc ∧ (f r).pend ≤ r.pend)
+    (hs : ∀ r, (f r).mapSem = r.mapSem ∧ (f r).nc = r.nc ∧ ((f r).frame = r.frame ∨ (f r).frame = .running) ∧
+      ((f r).outcome = none → r.outcome = none))
     (hacq : ∀ r, p.reqs[m]? = some r → r.AcqOK → (f r).AcqOK)
     (hc : ∀ r, (f r).created = r.created)
     (hf : ∀ r, p.reqs[m]? = some r → P r.cnt r.frame → P' (f r).cnt (f r).frame) :
     SpSt cap L R (p.modReq m f) m k P' := by
-  refine h.modReq f k P' ?_ (fun r => (hs r).2.1) hacq hc hf
-  intro r v _ hv
-  refine ⟨v, by rw [(hs r).1]; exact hv, ?_⟩
-  rw [(hs r).1]
-  have := (hs r).2.2
-  omega
+  have hfw : ∀ r, p.reqs[m]? = some r → (f r).frame ≠ .waitRoom := fun r hr => by
+    rcases (hs r).2.2.1 with e | e
+    · rw [e]; exact h.nw r hr
+    · rw [e]; intro x; cases x
+  refine ⟨(Pool.tame0_modReq p m f).good0 h.g0,
+    h.mp.modReq f k ?_ (fun r => (hs r).2.1) hacq (fun r _ hw => by rw [(hs r).1]; exact hw), h.ac.modReq f hc hf,
+    by simpa [Pool.modReq] using h.lt, fun r' hr' => by
+      simp only [Pool.modReq] at hr'
+      obtain ⟨x, hx, rfl⟩ := getElem?_modify_some p.reqs m m f r' hr'
+      simp only [if_true]
+      exact hfw x hx⟩
+  intro r v hr hv
+  have e1 : (f r).pend = r.pend := by rw [Req.pend_zero (hfw r hr), Req.pend_zero (h.nw r hr)]
+  have e2 := (hs r).2.2.2
+  refine ⟨v, by rw [(hs r).1]; exact hv, ?_, fun hnd => ⟨e2 hnd, ?_⟩⟩
+  · rw [(hs r).1, e1]; omega
+  · rw [(hs r).1, e1]; omega
 
 end Taskpool
 
@@ -303,6 +334,29 @@ theorem _root_.Taskpool.AccAt.modReqOther {p : Pool} {m : Nat} {P : Cnt → MFra
     obtain ⟨x, hx, rfl⟩ := getElem?_modify_some _ w m _ r' hr'
     simp only [hw, if_false]
     exact h.here x hx
+
+/-- scheduling a woken spawner keeps any description of the books -/
+theorem _root_.Taskpool.AccAt.schedOpt {p : Pool} {m : Nat} {P : Cnt → MFrame → Prop} (h : AccAt p m P) (o : Option Nat) :
+    AccAt (p.schedOpt o) m P := by
+  cases o with
+  | none => exact h
+  | some w =>
+    simp only [Pool.schedOpt, schedMeta]
+    refine AccAt.emitRef ?_ _
+    by_cases e : w = m
+    · subst e
+      exact h.modReq _ (fun _ => rfl) (fun _ _ hp => hp)
+    · exact h.modReqOther w e _ (fun _ => ⟨rfl, rfl⟩)
+
+theorem _root_.Taskpool.SpSt.schedOpt {cap : Cap} {L R : Bool} {p : Pool} {m : Nat} {k : Int} {P : Cnt → MFrame → Prop}
+    (h : SpSt cap L R p m k P) (o : Option Nat) : SpSt cap L R (p.schedOpt o) m k P :=
+  ⟨(tame_schedOpt p o).toTame0.good0 h.g0, (tame_schedOpt p o).mapFrame.mid h.mp h.lt, h.ac.schedOpt o,
+    Nat.lt_of_lt_of_le h.lt (tame_schedOpt p o).rql, fun r' hr' => by
+      rcases (tame_schedOpt p o).rq m r' hr' with ⟨r, a, b⟩ | ⟨hge, _⟩
+      · rcases b.fr with e | e
+        · rw [e]; exact h.nw r a
+        · rw [e]; intro x; cases x
+      · have := h.lt; omega⟩
 
 /-- `release()` of a request's own semaphore keeps any description of the books and the number of requests -/
 theorem accFrame_releaseMap' (p : Pool) (m : Nat) :
